@@ -61,3 +61,12 @@ pub fn tscd(line: &str) -> String {
     let f: u64 = t[2].parse().unwrap();
     format!("ok {}", v::timestamp_duration_since(b, a, f))
 }
+
+/// `a b f` through `RawSample::duration` (start = a, end = b).
+pub fn tscs(line: &str) -> String {
+    let t = toks(line);
+    let a: u64 = t[0].parse().unwrap();
+    let b: u64 = t[1].parse().unwrap();
+    let f: u64 = t[2].parse().unwrap();
+    format!("ok {}", v::raw_sample_duration(a, b, f))
+}
